@@ -78,6 +78,20 @@ class Filter(collections.namedtuple('Filter', ['property', 'op', 'value'])):
             True if property matches the filter,
             False otherwise.
         """
+        # Objects of unregistered custom types are kept as plain dictionaries,
+        # so their timestamps are still text.  Compare them as instants too,
+        # if the filter value is a timestamp as well.
+        if isinstance(stix_obj_property, str):
+            as_timestamp = stix2.utils.timestamp_sort_key(stix_obj_property)
+            if isinstance(as_timestamp, datetime):
+                values = self.value if isinstance(self.value, tuple) \
+                    else (self.value,)
+                if all(
+                    isinstance(stix2.utils.timestamp_sort_key(v), datetime)
+                    for v in values
+                ):
+                    stix_obj_property = as_timestamp
+
         # If filtering on a timestamp property and the filter value is a string,
         # try to convert the filter value to a datetime instance.
         if isinstance(stix_obj_property, datetime) and \
